@@ -1140,6 +1140,10 @@ def _specs(s):
     for i, sp in enumerate(s.split(";")):
         c, ta, um = sp.split(",")
         # a term currency is a Currency or its symbol (every third spec)
+        if c.startswith("?"):
+            # the symbol of a currency that is not registered
+            out.append((c[1:], _num_tok(ta), _num_tok(um)))
+            continue
         cur = Unit(c)
         out.append((c if (i + len(s)) % 3 == 0 else cur, _num_tok(ta), _num_tok(um)))
     return out
